@@ -19,9 +19,10 @@ EXTENDS Abasic, Json
 NumLeaves == { TkN(NInt(0)), TkN(NInt(1)), TkN(NInt(2)), TkN(NInt(3)), TkN(Mk(1, 1)),
                TkS("symbol", B("X")), TkS("symbol", B("U")) }
 StrLeaves == { TkS("stringliteral", <<>>), TkS("stringliteral", B("A")), TkS("stringliteral", B("B")),
-               TkS("symbol", B("S$")) }
+               TkS("symbol", B("S$")), TkS("symbol", B("U$")) }          \* S$ is set, U$ never assigned
 Leaves == {<<"leaf", t>> : t \in NumLeaves \cup StrLeaves}
-FewLeaves == {<<"leaf", t>> : t \in {TkN(NInt(0)), TkN(NInt(2)), TkN(NInt(3)), TkN(Mk(1, 1)), TkS("stringliteral", B("A")), TkS("symbol", B("S$"))}}
+FewLeaves == {<<"leaf", t>> : t \in {TkN(NInt(0)), TkN(NInt(2)), TkN(NInt(3)), TkN(Mk(1, 1)), TkS("stringliteral", B("A")), TkS("symbol", B("S$")),
+                                       TkS("symbol", B("U$")), TkS("stringliteral", <<>>)}}
 
 BinOps == {"or", "and", "equals", "notequals", "lessthan", "lessthanorequalto", "greaterthan",
            "greaterthanorequalto", "plus", "minus", "multiply", "divide", "caret"}
